@@ -98,6 +98,12 @@ impl<const KEY_LENGTH: usize, const OUTPUT_LENGTH: usize> GenericHash<KEY_LENGTH
         })
     }
 
+    #[cfg(dryoc_verif)]
+    /// Verification hook: number of bytes currently buffered.
+    pub fn verif_buf_len(&self) -> usize {
+        self.state.verif_buf_len()
+    }
+
     /// Updates the hasher state from `input`.
     pub fn update<Input: Bytes + ?Sized>(&mut self, input: &Input) {
         crypto_generichash_update(&mut self.state, input.as_slice())
